@@ -1996,6 +1996,15 @@ def decide_on_values(pe, text, env, rep=None, generic=True):
                 raise
             except Exception:
                 raise Unknown()
+        if isinstance(n, ast.BinOp) and generic:
+            # an expression of symbolic values is itself a generic symbolic value (it only takes part in == / != below)
+            try:
+                whole = pe.eval(n, env)
+            except Exception:
+                whole = None
+            if isinstance(whole, Node) and dag.as_const(whole) is None and not any(
+                    isinstance(x, ast.Name) and x.id in rep for x in ast.walk(n)) and not (dag.symbols(whole) & set(rep)):
+                return whole
         if isinstance(n, ast.BinOp) and isinstance(n.op, (ast.Add, ast.Sub)):
             a, b = val(n.left), val(n.right)
             if isinstance(a, Node) or isinstance(b, Node):
